@@ -600,7 +600,13 @@ def run_jailed(env, troot, argv, timeout=10.0, cwd='/'):
     def pre():
         _limits()
         os.chroot(troot)
-        os.chdir(cwd)
+        if cwd == '@gone':        # a working directory that no longer exists
+            g = '/.gone-%d' % os.getpid()
+            os.mkdir(g)
+            os.chdir(g)
+            os.rmdir(g)
+        else:
+            os.chdir(cwd)
     p = subprocess.Popen(cmd, env=e, stdin=subprocess.DEVNULL, stdout=subprocess.PIPE,
                          stderr=subprocess.PIPE, preexec_fn=pre, start_new_session=True)
     try:
